@@ -749,3 +749,21 @@ mut("C20", "r6-tracer-warning-labelled-info", "log/trace.go",
     "\t\ttracer.log(WarningLevel, msg)", "\t\ttracer.log(InfoLevel, msg)", "C20-R6|log.(*ContextTracer).Warning / passes on WarningLevel")
 mut("C20", "r6-info-without-fastcheck", "log/input.go",
     "\tif fastcheck(InfoLevel) {\n\t\tlog(InfoLevel, msg, nil)\n\t}", "\tlog(InfoLevel, msg, nil)", "C20-R6|log.Info / log() behind fastcheck")
+
+# ---- metadata tables (C02-R12) -----------------------------------------------------------
+mut("C02", "r12-validity-expiry-inclusive", "database/record/meta.go",
+    "\tcase m.Expires > 0 && m.Expires < time.Now().Unix():", "\tcase m.Expires > 0 && m.Expires <= time.Now().Unix():", "C02-R12|database/record.(*Meta).CheckValidity")
+mut("C02", "r12-validity-ignores-deleted-sign", "database/record/meta.go",
+    "\tcase m.Deleted > 0:\n\t\treturn false\n\tcase m.Expires > 0", "\tcase m.Deleted != 0:\n\t\treturn false\n\tcase m.Expires > 0", "C02-R12|database/record.(*Meta).CheckValidity")
+mut("C02", "r12-relative-expiry-negative", "database/record/meta.go",
+    "\tif abs < 0 {\n\t\treturn 0\n\t}\n\treturn abs", "\treturn abs", "C02-R12|database/record.(*Meta).GetRelativeExpiry")
+mut("C02", "r12-update-rearm-sign", "database/record/meta.go",
+    "\t\tm.Expires = now - m.Deleted", "\t\tm.Expires = now + m.Deleted", "C02-R12|database/record.(*Meta).Update")
+mut("C02", "r12-update-overwrites-created", "database/record/meta.go",
+    "\tif m.Created == 0 {\n\t\tm.Created = now\n\t}", "\tm.Created = now", "C02-R12|database/record.(*Meta).Update")
+mut("C02", "r12-setrelative-accepts-negative", "database/record/meta.go",
+    "\tif seconds >= 0 {\n\t\tm.Deleted = -seconds\n\t}", "\tm.Deleted = -seconds", "C02-R12|database/record.(*Meta).SetRelativateExpiry")
+mut("C12", "r9-session-expired-inverted", "api/authentication.go",
+    "\treturn time.Now().After(sess.validUntil)", "\treturn sess.validUntil.After(time.Now())", "C12-R9|api.(*session).Expired")
+mut("C19", "r2-sort-oldest-first", "updater/resource.go",
+    "\treturn res.Versions[i].semVer.GreaterThan(res.Versions[j].semVer)", "\treturn res.Versions[i].semVer.LessThan(res.Versions[j].semVer)", "C19-R2|updater.(*Resource).Less")
